@@ -126,6 +126,11 @@ func init() {
 					nranges++
 					name := fmt.Sprintf("%s/maprange#%d/order-independent", key, k)
 					okRes, detail, inj := classifyMapRange(fn, rng, emit)
+					if ctr := c.e.ctrs[key]; !okRes && ctr != nil && ctr.TotalOrder != "" && strings.Contains(detail, "sorts it with a custom comparison") && !strings.Contains(detail, ";") {
+						// the only objection is the custom comparison, and the function's contract states why it is total
+						okRes, detail = true, ""
+						c.assumed["custom sort comparison in "+key+" is total on the sorted list: "+ctr.TotalOrder] = true
+					}
 					if inj != "" {
 						assumedInj = append(assumedInj, name+": "+inj)
 					}
@@ -256,17 +261,27 @@ func classifyMapRange(fn *ssa.Function, rng *ssa.Range, emit map[*ssa.Function]b
 		}
 	}
 	if lists > 0 {
-		sorted := false
+		// only a total order on the elements removes the iteration order: sort.Strings / Ints / Float64s / slices.Sort order
+		// equal elements indistinguishably; a custom comparison (sort.Slice, sort.Sort) leaves ties in map order unless it
+		// is total on the elements, which is not decided here
+		sorted, custom := false, ""
 		for _, b := range fn.Blocks {
 			for _, ins := range b.Instrs {
 				if call, ok := ins.(ssa.CallInstruction); ok {
-					if callee := call.Common().StaticCallee(); callee != nil && strings.HasPrefix(extKey(callee), "sort.") {
-						sorted = true
+					if callee := call.Common().StaticCallee(); callee != nil {
+						switch k := extKey(callee); {
+						case k == "sort.Strings" || k == "sort.Ints" || k == "sort.Float64s" || k == "slices.Sort":
+							sorted = true
+						case strings.HasPrefix(k, "sort.") || strings.HasPrefix(k, "slices.Sort"):
+							custom = k
+						}
 					}
 				}
 			}
 		}
-		if !sorted {
+		if !sorted && custom != "" {
+			problems = append(problems, "builds a list in iteration order and sorts it with a custom comparison ("+custom+"): elements that compare equal keep the map's iteration order")
+		} else if !sorted {
 			problems = append(problems, "builds a list in iteration order that is not sorted afterwards")
 		}
 	}
